@@ -1,40 +1,65 @@
 // C10 wrappers: the real dtype cast-compatibility rule on flattened dtype vectors of symbolic shape.
 // (private members are opened so that the flattened vectors can be set directly: building struct/tuple trees goes through
 //  heap-allocated dtypeStruct_t/dtypeTuple_t objects whose shapes the solver cannot usefully vary)
+#define private public
+#define protected public
 #include <string>
 #include <vector>
 #include <map>
 #include <iostream>
 #include <sstream>
-#define private public
-#define protected public
 #include "dtype/dtype.cpp"
 #undef private
 #undef protected
 #include "errstub.hpp"
 #define VX extern "C" __attribute__((noinline))
 using occa::dtype_t;
-// from/to are fresh unregistered dtypes whose flattened vectors hold pointers to three distinct leaf dtypes
+#include <new>
+#include <cstring>
+// dtype objects are zero-initialised raw storage (ref == NULL, no enum/struct/tuple/union, empty vectors): the cast rule only
+// looks at object identity and at the flattened vectors; constructors/destructors (std::string names, owned pointers) are
+// not the subject and are never run.
+struct raw_dtype { alignas(dtype_t) char b[sizeof(dtype_t)]; dtype_t* p() { return reinterpret_cast<dtype_t*>(b); } };
+static void zero(raw_dtype &r) { memset(r.b, 0, sizeof(r.b)); }
+// a vector of concrete capacity 8 whose size is set to the symbolic n by moving its end pointer: no push_back/realloc paths
+static void fill(occa::dtypeVector_t &v, raw_dtype *leaf, const int *sel, int n) {
+  new (&v) occa::dtypeVector_t(8, (const dtype_t*) 0);
+  for (int i = 0; i < 8; i++) v[i] = leaf[(i < n) ? sel[i] : 0].p();
+  v._M_impl._M_finish = v._M_impl._M_start + n;
+}
+
 VX int d_cast(int nf, const int *fsel, int nt, const int *tsel) {
   try {
-    dtype_t leaf0("l0", 4), leaf1("l1", 4), leaf2("l2", 8);
-    const dtype_t *leaves[3] = {&leaf0, &leaf1, &leaf2};
-    dtype_t from("from", 0), to("to", 0);
-    // a dtype whose flattened form is empty behaves like an empty struct: give it a struct marker so that it is not its own leaf
-    from.flatDtype.reserve(8); to.flatDtype.reserve(8);      // one allocation each: vector growth is not the subject
-    for (int i = 0; i < nf; i++) from.flatDtype.push_back(leaves[fsel[i]]);
-    for (int i = 0; i < nt; i++) to.flatDtype.push_back(leaves[tsel[i]]);
-    if (nf == 0) from.struct_ = new occa::dtypeStruct_t();
-    if (nt == 0) to.struct_ = new occa::dtypeStruct_t();
-    return from.canBeCastedTo(to) ? 1 : 0;
+    raw_dtype leaf[3], from, to;
+    for (int k = 0; k < 3; k++) zero(leaf[k]);
+    zero(from); zero(to);
+    fill(from.p()->flatDtype, leaf, fsel, nf);
+    fill(to.p()->flatDtype, leaf, tsel, nt);
+    return from.p()->canBeCastedTo(*to.p()) ? 1 : 0;
+  } catch (...) { return -1; }
+}
+// an empty tuple dtype (flattened form has no entries) against a dtype of nt >= 1 leaves, both directions
+VX int d_cast_empty(int nt, const int *tsel, int dir) {
+  try {
+    raw_dtype leaf[3], from, to;
+    for (int k = 0; k < 3; k++) zero(leaf[k]);
+    zero(from); zero(to);
+    // a tuple of size 0 (dtype_t::tuple(x, 0)): its flattened form has no entries.  Zeroed raw storage: size == 0, the element
+    // dtype is never looked at.
+    alignas(occa::dtypeTuple_t) static char sb[sizeof(occa::dtypeTuple_t)];
+    memset(sb, 0, sizeof(sb));
+    from.p()->tuple_ = reinterpret_cast<occa::dtypeTuple_t*>(sb);
+    fill(to.p()->flatDtype, leaf, tsel, nt);
+    return (dir ? to.p()->canBeCastedTo(*from.p()) : from.p()->canBeCastedTo(*to.p())) ? 1 : 0;
   } catch (...) { return -1; }
 }
 VX int d_cyclic(int n, const int *sel, int cycle) {
   try {
-    dtype_t leaf0("l0", 4), leaf1("l1", 4), leaf2("l2", 8);
-    const dtype_t *leaves[3] = {&leaf0, &leaf1, &leaf2};
-    occa::dtypeVector_t v; v.reserve(8);
-    for (int i = 0; i < n; i++) v.push_back(leaves[sel[i]]);
+    raw_dtype leaf[3];
+    for (int k = 0; k < 3; k++) zero(leaf[k]);
+    alignas(occa::dtypeVector_t) char vb[sizeof(occa::dtypeVector_t)];
+    occa::dtypeVector_t &v = *reinterpret_cast<occa::dtypeVector_t*>(vb);
+    fill(v, leaf, sel, n);
     return dtype_t::isCyclic(v, cycle) ? 1 : 0;
   } catch (...) { return -1; }
 }
